@@ -68,7 +68,18 @@ class AbsMatch(Native):
         if name == "end":
             return NativeMethod(lambda it, a, kw: self.span_of(*a)[1])
         if name == "lastindex":
-            return None
+            idx = [i + 1 for i, g in enumerate(self.grps) if g[1] >= 0]
+            return max(idx) if idx else None
+        if name == "string":
+            return self.subject
+        if name == "regs":
+            return tuple([(self.s, self.e)] + [(g[1], g[2]) for g in self.grps])
+        if name == "re":
+            return AbsPatternInfo(len(self.grps), {g[0]: i + 1 for i, g in enumerate(self.grps) if g[0]})
+        if name == "pos":
+            return 0
+        if name == "endpos":
+            return len(self.subject)
         raise Incomplete(f"match.{name} not modelled")
 
     def sa_getitem(self, interp, k):
@@ -76,6 +87,21 @@ class AbsMatch(Native):
 
     def __repr__(self):
         return f"<match {self.s}:{self.e} {self.grps}>"
+
+
+class AbsPatternInfo(Native):
+    """`match.re`: only the group table of the compiled pattern is exposed."""
+
+    def __init__(self, groups, groupindex):
+        self.groups = groups
+        self.groupindex = groupindex
+
+    def sa_getattr(self, interp, name):
+        if name == "groups":
+            return self.groups
+        if name == "groupindex":
+            return dict(self.groupindex)
+        raise Incomplete(f"pattern.{name} not modelled")
 
 
 class AbsCompiled(Native):
@@ -150,7 +176,7 @@ class MatchHooks(PregexHooks):
             ms = self.matches_for(subject)
             return ms[0] if ms else None
         if name == "finditer":
-            return list(self.matches_for(subject))
+            return iter(list(self.matches_for(subject)))
         if name == "findall":
             return [m.value_of(0) for m in self.matches_for(subject)]
         if name in ("sub", "subn"):
@@ -198,7 +224,7 @@ def std_matches(subject):
     differ from group numbers."""
     n = len(subject)
     return [
-        AbsMatch(subject, 0, 3, [(None, 0, 1), ("n1", 1, 1), (None, -1, -1), ("n2", 1, 3), ("n3", -1, -1)]),
+        AbsMatch(subject, 0, 3, [(None, 0, 0), ("n1", 0, 1), (None, -1, -1), ("n2", 1, 3), ("n3", 0, 0)]),
         AbsMatch(subject, 5, 5, [(None, 5, 5), ("n1", -1, -1), (None, 5, 5), ("n2", 5, 5), ("n3", 5, 5)]),
         AbsMatch(subject, 8, 12, [(None, 8, 9), ("n1", 9, 11), (None, 11, 11), ("n2", -1, -1), ("n3", 11, 12)]),
         AbsMatch(subject, 12, 14, [(None, 12, 13), ("n1", 13, 13), (None, 13, 14), ("n2", 14, 14), ("n3", -1, -1)]),
